@@ -35,7 +35,7 @@ var searchCfgs = []searchCfg{
 	}},
 	{"full/captures-quiescence", func() (search.Search, refsearch.Config, func(context.Context, *board.Board)) {
 		leaf := search.Leaf{Eval: eval.Material{}}
-		return search.AlphaBeta{Eval: search.Quiescence{Explore: capturesOnly, Eval: leaf}}, refsearch.Config{Leaf: refsearch.Quiesce, QExplore: capturesOnly, Eval: leaf}, noReset
+		return search.AlphaBeta{Eval: search.Quiescence{Explore: capturesOnly, Eval: leaf}}, refsearch.Config{Leaf: refsearch.Quiesce, QExplore: capturesOnly, QPredPure: true, Eval: leaf}, noReset
 	}},
 	{"turochamp", func() (search.Search, refsearch.Config, func(context.Context, *board.Board)) {
 		leaf := search.Leaf{Eval: turochamp.Eval{}}
